@@ -15,8 +15,8 @@
    - `grow_tree` is the common part of both `fit_weak_learner`s (root, breadth-first growth) for an
      arbitrary split search `find`; the theorems about it therefore hold for both trees, for every
      bootstrap weight vector `samples` and every choice of tried features (random forest, C06). *)
-From Coq Require Import List Arith Bool Reals Lra Floats.
-From SC Require Import Base.Num C05.Model C05.ProofsGrow C05.ProofsReg.
+From Coq Require Import List Arith Bool Reals Lra Floats Lia.
+From SC Require Import Base.Num C05.Model C05.ProofsGrow C05.ProofsReg C05.ProofsCls.
 Import ListNotations.
 Local Open Scope nat_scope.
 
@@ -99,12 +99,55 @@ Proof.
     exact (Hm Hl Hpos).
 Qed.
 
+(* leaf_value_classification (exact arithmetic for the feature comparisons): in a fitted
+   classification tree the output of EVERY node n is a class index < k whose count among the rows
+   counted by G n (= the training rows routed to n) is maximal: a majority class.
+   `cvec x yi k s` is the vector of per-class counts of the rows counted by s. *)
+Theorem C05_leaf_value_classification : forall lg2 crit x yi k samples vars order md msl mss nodes d,
+  0 < k -> length yi = length x -> length samples = length x ->
+  (forall id j, In j (vars id) -> sorted_order x j (nth j order [])) ->
+  fit_classifier_with_order ROps lg2 crit x yi k samples vars order md msl mss = Some (nodes, d) ->
+  exists G D, tree_consistent ROps 0 x msl (cls_out_ok x yi k) samples nodes G D /\
+    (forall i n, i < length x -> n < length nodes ->
+      (route ROps nodes (nth i x []) n -> nth i (G n) 0 = nth i samples 0) /\
+      (~ route ROps nodes (nth i x []) n -> nth i (G n) 0 = 0)) /\
+    forall n, n < length nodes ->
+      output (nth n nodes (dnode 0)) < k /\
+      forall c, nth c (cvec x yi k (G n)) 0 <= nth (output (nth n nodes (dnode 0))) (cvec x yi k (G n)) 0.
+Proof.
+  intros lg2 crit x yi k samples vars order md msl mss nodes d Hk Hy Hs Ho H.
+  destruct (fit_classifier_consistent lg2 crit x yi k samples vars order md msl mss nodes d Hy Hs Ho H)
+    as (G & D & C & _).
+  exists G, D. split; [exact C|]. split.
+  - intros i n Hi Hn. exact (samples_routed ROps 0 x msl _ samples nodes G D i n C Hi Hn).
+  - intros n Hn. destruct (tc_out ROps 0 x msl _ samples nodes G D C n Hn) as [Hl Hm].
+    rewrite (Hm Hl).
+    assert (NE : cvec x yi k (G n) <> []).
+    { intros E. pose proof (cvec_length x yi k (G n)) as L. rewrite E in L. cbn in L. lia. }
+    destruct (which_max_spec _ NE) as [W1 W2]. rewrite cvec_length in W1. split; [exact W1|exact W2].
+Qed.
+
+(* ... and the label reported for a class index is one of the training labels (any number type) *)
+Theorem C05_labels_are_originals : forall T (O : Ops T) lg2 crit x y samples vars md msl mss classes nodes d c dflt,
+  fit_classifier_weak O lg2 crit x y samples vars md msl mss = Some (classes, nodes, d) ->
+  c < length classes -> In (nth c classes dflt) y.
+Proof. exact @classifier_labels_original. Qed.
+
 (* ---- the hypotheses are satisfiable (binary64 instance, evaluated by the kernel) ---- *)
 Example C05_regressor_instance :
   exists nodes d,
     fit_regressor FOps [[1;5];[2;4];[3;9];[4;1];[5;7];[6;2]]%float [1;1.5;3;3.5;10;11]%float (Some 3) 1 2
       = Some (nodes, d) /\ length nodes = 5 /\ wf_treeb nodes = true.
 Proof. eexists. eexists. split; [vm_compute; reflexivity|]. split; vm_compute; reflexivity. Qed.
+
+Example C05_classifier_instance :
+  exists classes nodes d,
+    fit_classifier FOps (fun p => p) Gini
+      [[1;0];[1;0];[1;1];[2;1];[2;1];[3;0];[3;0];[3;2]]%float [-2;17;-2;17;17;100;-2;100]%float None 1 0
+      = Some (classes, nodes, d) /\ classes = [-2; 17; 100]%float /\ length nodes = 9 /\ wf_treeb nodes = true.
+Proof.
+  eexists. eexists. eexists. split; [vm_compute; reflexivity|]. repeat split; vm_compute; reflexivity.
+Qed.
 
 Example C05_sorted_order_instance : sorted_order [[3];[1];[2]]%R 0 [1; 2; 0].
 Proof.
